@@ -2,7 +2,8 @@ package main
 
 // Scenario `bridgestore` (C01 leaf/roots, C04, C07, C14): the real bridge processor (SQLite, real transactions,
 // rollback callbacks, cascade deletes) behind the real BridgeSync facade, with storage faults injected at a chosen
-// write statement through SQL triggers installed from a second connection.
+// write statement through SQL triggers installed from a second connection. The fault is one-shot (the trigger counts
+// first and raises FAIL, which keeps the count): code that swallows the error sees the following statements succeed.
 
 import (
 	"context"
@@ -77,16 +78,16 @@ func (w *bsWorld) open(r *Run, fresh bool) {
 		must(err)
 		for _, t := range bsFaultTables {
 			_, err = w.ctl.Exec(fmt.Sprintf(`CREATE TRIGGER verif_f_%s_i BEFORE INSERT ON %s WHEN (SELECT armed FROM verif_fault)=1 BEGIN
-				SELECT CASE WHEN (SELECT n FROM verif_fault) = (SELECT target FROM verif_fault) THEN RAISE(ABORT,'verif fault') END;
-				UPDATE verif_fault SET n = n + 1; END;`, t, t))
+				UPDATE verif_fault SET n = n + 1;
+				SELECT CASE WHEN (SELECT n FROM verif_fault) - 1 = (SELECT target FROM verif_fault) THEN RAISE(FAIL,'verif fault') END; END;`, t, t))
 			must(err)
 		}
 		_, err = w.ctl.Exec(`CREATE TRIGGER verif_f_root_d BEFORE DELETE ON root WHEN (SELECT armed FROM verif_fault)=2 BEGIN SELECT RAISE(ABORT,'verif fault'); END;
 			CREATE TRIGGER verif_f_block_d BEFORE DELETE ON block WHEN (SELECT armed FROM verif_fault)=3 BEGIN SELECT RAISE(ABORT,'verif fault'); END;`)
 		must(err)
 		_, err = w.ctl.Exec(`CREATE TRIGGER verif_f_legacy_d BEFORE DELETE ON legacy_token_migration WHEN (SELECT armed FROM verif_fault)=1 BEGIN
-				SELECT CASE WHEN (SELECT n FROM verif_fault) = (SELECT target FROM verif_fault) THEN RAISE(ABORT,'verif fault') END;
-				UPDATE verif_fault SET n = n + 1; END;`)
+				UPDATE verif_fault SET n = n + 1;
+				SELECT CASE WHEN (SELECT n FROM verif_fault) - 1 = (SELECT target FROM verif_fault) THEN RAISE(FAIL,'verif fault') END; END;`)
 		must(err)
 	}
 }
